@@ -948,6 +948,10 @@ def m_dict_get(I, recv, args, kw):
     key = I.force(args[0])
     default = args[1] if len(args) > 1 else kw.get("default")
     if isinstance(recv, PDict):
+        for k, v in getattr(recv, "sym_items", []):
+            e = pyops.py_eq(key, k)
+            if (e if isinstance(e, bool) else I.ctx.decide(e, "dict-get-symkey")):
+                return v
         if is_concrete(key):
             try:
                 return recv.d.get(key, default)
